@@ -8,6 +8,7 @@ package reader
 import (
 	"fmt"
 	"io"
+	"maps"
 	"os"
 	"sync"
 
@@ -76,10 +77,13 @@ var defaultOptions = &Options{
 }
 
 func New(opts ...ReaderOption) *Reader {
+	// Every reader gets its own copy of the default options
+	options := *defaultOptions
+	options.formatOptions = maps.Clone(defaultOptions.formatOptions)
 	r := &Reader{
 		sniffer: &formats.Sniffer{},
 		Storage: storage.NewFileSystem(),
-		Options: defaultOptions,
+		Options: &options,
 	}
 
 	for _, opt := range opts {
